@@ -15,11 +15,11 @@ CLAIMED = {
  "C09": dict(section="5 C09", text="Seeded simulation of decide/pop histories (1-3 logical callers, any variable and polarity, refused decisions followed by more work on the same solver) on the real SATSolver over random small CNFs, checked after every step against brute-force entailment over all <= 64 models, a clause-by-clause fixpoint check, a shadow stack for pop, and hash-vs-residual-formula injectivity. Sampling evidence; the space explored is the call schedule (this component has no cache or allocator dependence, so no fault kinds apply).",
              note="Trusted: brute-force model enumeration (<= 10 variables), a DPLL oracle written for the harness (large instances: <= 140 variables, <= 300 clauses; implication ladders of up to 6000 rungs; sparse-wide instances), shadow stack. <= 120 calls (one small run in 1500: 150000-250000 calls on one solver; one in 1000: a counter-period history; hub formulas with watch lists of tens of entries; one 9-14-literal clause). Hash clause asserted at every size: exact while the prime product fits 128 bits, beyond that a coincidence modulo 2^128 is treated as impossible. One run in 5000: 20000-100000 variables with a sweep over all single-decision states."),
  "C15": dict(section="5 C15", text="Seeded simulation of CnfHasher push/decide/pop/hash histories (caller's partial model kept in step, also hashed with extra assignments) against a residual-formula reference (equal residual => equal hash; equal hash => equal residual while the prime product fits 128 bits), and of PartialModel / VarSet mutation histories against explicit sets; Cnf::new/eval/is_sat_partial/condition chains/brute-force wmc ride along as generated inputs checked against explicit assignment sets (for those clauses the simulator adds nothing beyond seeded generation). Sampling evidence.",
-             note="Trusted: explicit-set reference implementations in the harness. Bounds: <= 10 variables with exhaustive eval/wmc, large formulas (<= 60 variables, <= 90 clauses) with sampled eval/condition and no count; a 150-variable partial model and 200-label variable sets; <= 124 calls; exact dyadic / modular weights; one large formula in eight has a 27-45-literal clause; equal VarSets must hash equally; the conditioned formula's own hasher is exercised; the 'only then' half also applies per residual whose prime product is bounded by 128 bits."),
+             note="Trusted: explicit-set reference implementations in the harness. Bounds: <= 10 variables with exhaustive eval/wmc, large formulas (<= 60 variables, <= 90 clauses) with sampled eval/condition and no count; a 150-variable partial model and 200-label variable sets; <= 124 calls; exact dyadic / modular weights; one large formula in eight has a 27-45-literal clause; equal VarSets must hash equally; the conditioned formula's own hasher is exercised; the 'only then' half also applies per residual whose prime product is bounded by 128 bits; one run in 1500 is a sweep over a formula with 300-9000 literal occurrences (every single-occurrence residual hashed; pairwise different and route-independent hashes demanded). Each run executes on a fresh thread, so library-side thread-local state never leaks between runs."),
  "C03": dict(section="5 C03", text="Seeded simulation of SDD-builder histories (1-4 logical callers on one CompressionSddBuilder; right-linear, left-linear, balanced and random vtrees with random leaf labelling; compression on and off; tiny-to-shipped unique tables; apply-/ite-cache forgetting and early growth; controlled placement) against the truth-table model, read back by an independent evaluator over elements / binary nodes / complement variants and by a second reader through node_iter(); old handles are re-read later. Sampling evidence.",
-             note="Trusted: truth-table model, the two SDD readers, allocator seam. Bounds: sdd world <= 7 variables (exact oracle), sddmid world 8-20 variables and balanced vtrees over 33000-70000 variables (sampled sub-cube); <= 160 operations (one compressing run in 300: 1500-6000 operations on one builder; one sddmid run in 200: decision nodes with 256-2048 elements built along two routes); clause / compile_cnf / read-only query operations; uncompressed operations are admitted by a per-kind work estimate and operands whose unfolded size exceeds a cap are not reused (rsdd's structural pointer ordering is exponential on deep shared diagrams; cost control only)."),
+             note="Trusted: truth-table model, the two SDD readers, allocator seam. Bounds: sdd world <= 7 variables (exact oracle), sddmid world 8-20 variables and balanced vtrees over 33000-70000 variables (sampled sub-cube); <= 160 operations (one compressing run in 300: 1500-6000 operations on one builder; one sddmid run in 200: decision nodes with 256-2048 elements built along two routes; one in 150: wide multiplexers, raw element lists of up to 2048 entries with coinciding and complementary subs); clause / compile_cnf / read-only query operations; uncompressed operations are admitted by a per-kind work estimate and operands whose unfolded size exceeds a cap are not reused (rsdd's structural pointer ordering is exponential on deep shared diagrams; cost control only)."),
  "C04": dict(section="5 C04", text="The same simulated histories with compression on: every reachable decision node is audited from the truth tables of its elements against the vtree (primes non-false, disjoint, exhaustive, left variables only; subs right variables only and pairwise different; not trimmable), a run-global function->pointer map over all handles and all sub-diagrams decides canonicity, and every live node is looked up again at the end. Sampling evidence.",
-             note="Trusted: truth-table model, vtree leaf sets read through the public VTree API. The library's is_compressed/is_trimmed are evaluated as a cross-check only (disagreements are counted, not reported). In the sddmid world only the structural and sound-from-samples parts of the statement are checked."),
+             note="Trusted: truth-table model, vtree leaf sets read through the public VTree API. The library's is_compressed/is_trimmed are evaluated as a cross-check only (disagreements are counted, not reported). In the sddmid world only the structural and sound-from-samples parts of the statement are checked; its multiplexer operation and wide-multiplexer runs exercise compression on raw element lists of up to 2048 entries whose subs coincide or complement each other."),
  "C10": dict(section="5 C10", text="Seeded simulation of query histories: 1-4 logical callers interleave queries of different result types (eight semirings, evaluate, node count, (cached) semantic hash, bdd_fold, marginal MAP / MEU / branch-and-bound, smooth, condition) over BDD, SDD and top-down diagrams that share nodes, sub-diagrams and complements; each answer must equal the answer on a freshly built copy in a brand-new builder, and after every public call every scratch slot of every node in the builder (not only the roots) must be empty. Sampling evidence.",
              note="Trusted: the fresh-copy construction (Shannon expansion from the truth table up to 7 variables; replay of the construction history in the fresh builder for 8-245 variables, smoothed diagrams and the top-down variant), exact weights. The oracle does not judge correctness of the fresh answer. Also: serialize and statistics queries, special weight values (0, 1, -1, equal low/high, field elements 0/1/p-1), argument words biased to empty/singleton/full lists, conditioning marathons and counter-period histories on one builder, top-down stores beyond 8192 nodes."),
  "C11": dict(section="5 C11", text="Seeded simulation in which one operation history is executed in lock-step on seven builders (two BDD orders, compressed and uncompressed SDDs under two vtrees, a hash-identified SDD builder, a standard and a hash-identified top-down builder under two decision orders): every result's semantic hash under the three exported 32/64-bit primes must equal the defining sum over the models of the function the diagram denotes (library's public weight map), negations hash to 1-h, cached hashes requested at random points of the history equal recomputation, and the hash-identified builders must return the function the operation names and report eq for equal functions, and at end of run no two stored nodes of a hash-identified builder may denote the same or complementary function; the unique table's identity-by-hash mode (get_or_insert_by_hash(..,true)/get_by_hash) is also driven directly with simulator-chosen hashes. Tiny tables, cache forgetting and early growth are injected. Sampling evidence.",
@@ -81,7 +81,7 @@ def main():
         }],
         "checks": checks,
         "not_applicable": na,
-        "notes": "Every check is `bin/check <id> <tier>`: it rebuilds sim/ against /repo's working tree with hooks on, runs a fixed number of seeded runs (VERIF_SEED, default 1), writes evidence/<id>.json, and on a violation minimises it and writes replays/<id>-<world>-<seed>.json. known-findings.txt lists recorded and fixed findings.",
+        "notes": "Every check is `bin/check <id> <tier>`: it rebuilds sim/ against /repo's working tree with hooks on, runs a fixed number of seeded runs (VERIF_SEED, default 1), writes evidence/<id>.json, and on a violation minimises it and writes replays/<id>-<world>-<seed>.json. known-findings.txt lists recorded and fixed findings. Every run executes on its own fresh OS thread inside its own arena (DESIGN 3.2a).",
     }
     json.dump(m, open(os.path.join(ROOT, "MANIFEST.json"), "w"), indent=1)
     print("MANIFEST.json:", len(checks), "checks,", len(na), "not applicable/pending")
